@@ -219,6 +219,45 @@ def r_strain(ctx, model):
     ctx.check(not bad, f"{len(cases)} out-of-range spellings are rejected", model.where(f"{VOIGT}:StrainRepresentation.from_standard"),
               expected="an exception", found="; ".join(bad[:6]) or "all rejected",
               explanation="an out-of-range index is accepted and silently mapped to some key", key="rejection")
+    # the boxes of neighbours, exhaustively: a spelling is accepted exactly when every index it holds is in range for the notation its arity selects
+    # (two indices of a modulus are Voigt indices 1..6 - 11 is not a spelling of Voigt 1 there; four are standard indices 1..3; an integer / string is its digits)
+    def digits_ok(text, hi):
+        return text.isdigit() and all(1 <= int(c) <= hi for c in text)
+    box = []
+    for a_, b_ in itertools.product(range(-2, 41), repeat=2):
+        box.append(("ModulusRepresentation", (I(a_), I(b_)), 1 <= a_ <= 6 and 1 <= b_ <= 6))
+    for t_ in itertools.product(range(0, 5), repeat=4):
+        box.append(("ModulusRepresentation", tuple(I(x) for x in t_), all(1 <= x <= 3 for x in t_)))
+    for v_ in list(range(-2, 130)) + [1000, 1110, 1111, 1114, 1234, 3333, 3334, 4111, 11111, 111]:
+        text = str(v_)
+        ok = (len(text) == 2 and digits_ok(text, 6)) or (len(text) == 4 and digits_ok(text, 3))
+        box.append(("ModulusRepresentation", (I(v_),), ok))
+        if v_ >= 0:
+            box.append(("ModulusRepresentation", (text,), ok))
+    for a_, b_ in itertools.product(range(-1, 9), repeat=2):
+        box.append(("StrainRepresentation", (I(a_), I(b_)), 1 <= a_ <= 3 and 1 <= b_ <= 3))
+    for v_ in range(-2, 130):
+        text = str(v_)
+        ok = (1 <= v_ <= 6) or (len(text) == 2 and digits_ok(text, 3))
+        box.append(("StrainRepresentation", (I(v_),), ok))
+    bad2 = []
+    for cls, args, ok in box:
+        try:
+            o = mk(ev, cls, *args)
+            accepted = o is not None
+        except RaisedV:
+            accepted = False
+        except AnalysisError as e:
+            if "not in constant dict" in e.reason or "out of range" in e.reason or "arity" in e.reason or "unpack" in e.reason or "positional argument" in e.reason:
+                accepted = False
+            else:
+                raise
+        if accepted != ok:
+            shown = ", ".join(repr(x) if isinstance(x, str) else str(x) for x in args)
+            bad2.append(f"{cls}({shown}) " + (f"accepted -> {hkey(o)}" if accepted else "rejected"))
+    ctx.check(not bad2 and len(box) > 2500, f"{len(box)} spellings in the boxes around the legal ranges: accepted exactly when every index is in range", model.where(f"{VOIGT}:ModulusRepresentation.from_voigt"),
+              expected="Voigt pairs 1..6 x 1..6, standard tuples 1..3, integers / strings by their digits; everything else raises", found="; ".join(bad2[:6]) or "as required",
+              explanation="an out-of-range index is accepted and silently mapped to some key (or a legal spelling is refused)", key="rejection.box")
 
 
 RULES = [
